@@ -172,7 +172,10 @@ func decimalText(a any) string {
 	case float64:
 		return strconv.FormatFloat(t, 'f', -1, 64)
 	case float32:
-		return strconv.FormatFloat(float64(t), 'f', -1, 32)
+		// the text of the value it holds, the same text the float64 of
+		// that value has: float32(0.1) is 0.10000000149011612, not the
+		// float64 0.1, and two numbers with one text are one join key
+		return strconv.FormatFloat(float64(t), 'f', -1, 64)
 	}
 	return fmt.Sprintf("%v", a)
 }
